@@ -16,8 +16,12 @@ def run(chk):
     thorough = chk.tier == "thorough"
     chk.assume("integer kernel: + - * / % & | ^ &^, comparisons, shifts by unsigned counts, unary - ^, every integer conversion, at int/uint/i8..i64/u8..u64; "
                "division by zero is outside the domain (Go panics); floats, strings, aggregates, closures, defer are not decided by this check")
-    types = kernel.ALL_TYPES if thorough else ["i32", "u8", "i64"]
+    # quick: all operators at three types, and every conversion between them, u64 and int (the widening of signed values)
+    base = ["i32", "u8", "i64"]
+    types = kernel.ALL_TYPES if thorough else base + ["u64", "int"]
     cs = [c for c in kernel.cases_from_tlc(chk, types, "WaInt cases %s" % types) if c["rt"] != "panic"]
+    if not thorough:
+        cs = [c for c in cs if c["kind"] == "conv" or c["t"] in base]
     signed = kernel.SIGNED
     batches = list(common.chunks(cs, 1200))
 
